@@ -139,6 +139,37 @@ int runFatal(int argc, char **argv)
                 .sendToStdErr()
                 .sendToFile(path, L, N, options);
         gQtLogger.installMessageHandler();
+    } else if (cfg == "lateappend") {
+        // the pipeline is extended while it is in use: banners have been logged and flushed before the last two file sinks are attached -
+        // one inside a nested pipeline that existed (empty) from the start, one through the typed insertion call of the sorted pipeline
+        gQtLogger.format(QStringLiteral("%{message}"));
+        auto &np = gQtLogger.pipeline();
+        gQtLogger.installMessageHandler();
+        qInfo("banner: logging started");
+        gQtLogger.flush();
+        gQtLogger.sendToFile(path, L, N, options);
+        qInfo("banner: app.log attached");
+        gQtLogger.flush();
+        np.filterLevel(QtWarningMsg).format(QStringLiteral("%{type}|%{message}")).sendToFile(dir + QStringLiteral("/warn.log")).end();
+        gQtLogger.appendSink(FileSinkPtr::create(dir + QStringLiteral("/late.log")));
+    } else if (cfg.rfind("wide", 0) == 0) {
+        // many sibling sub-pipelines, one file each (a file per module); the last sibling holds warn.log, the outer level app.log
+        const int k = atoi(cfg.c_str() + 4);
+        for (int i = 0; i < k - 1; ++i) {
+            gQtLogger.pipeline()
+                    .filterLevel(QtCriticalMsg)
+                    .format(QStringLiteral("%{message}"))
+                    .sendToFile(dir + QStringLiteral("/mod%1.log").arg(i))
+                    .end();
+        }
+        gQtLogger.pipeline()
+                .filterLevel(QtWarningMsg)
+                .format(QStringLiteral("%{type}|%{message}"))
+                .sendToFile(dir + QStringLiteral("/warn.log"))
+                .end()
+                .format(QStringLiteral("%{message}"))
+                .sendToFile(path, L, N, options);
+        gQtLogger.installMessageHandler();
     } else if (cfg == "ini") {
         const QString ini = dir + QStringLiteral("/../cfg.ini");
         {
